@@ -7,6 +7,11 @@ GT = "./internal/mysql/gtids"
 OPT = "./internal/app/optimization"
 
 REGISTRY = {
+    "C20": dict(
+        level="exploration",
+        units=[dict(pkg=APP, test="TestVerifC20Inputs", quick=1600, thorough=80000, shards_quick=16, shards_thorough=16),
+               dict(pkg=APP, test="TestVerifC20Leak", quick=48, thorough=1200, shards_quick=16, shards_thorough=16)],
+    ),
     "C04": dict(
         level="exploration",
         units=[dict(pkg=APP, test="TestVerifC04", quick=1600, thorough=60000, shards_quick=16, shards_thorough=16)],
